@@ -32,9 +32,16 @@ pub(crate) struct Parser<'t> {
     /// `steps` is advanced in `nth()` and is reset in `do_bump()`
     /// `steps` records a lookahead.
     steps: Cell<u32>,
+
+    /// Number of events pushed since the last consumed token (verification hook).
+    #[cfg(feature = "oq3_verif")]
+    events_since_bump: u32,
 }
 
+#[cfg(not(feature = "oq3_verif"))]
 static PARSER_STEP_LIMIT: Limit = Limit::new(15_000_000);
+#[cfg(feature = "oq3_verif")]
+static PARSER_STEP_LIMIT: Limit = Limit::new(20_000);
 
 impl<'t> Parser<'t> {
     pub(super) fn new(inp: &'t Input) -> Parser<'t> {
@@ -43,6 +50,8 @@ impl<'t> Parser<'t> {
             pos: 0,
             events: Vec::new(),
             steps: Cell::new(0),
+            #[cfg(feature = "oq3_verif")]
+            events_since_bump: 0,
         }
     }
 
@@ -83,6 +92,8 @@ impl<'t> Parser<'t> {
             "the parser seems stuck"
         );
         self.steps.set(steps + 1);
+        #[cfg(feature = "oq3_verif")]
+        crate::verif::on_step();
 
         self.inp.kind(self.pos + n)
     }
@@ -292,10 +303,20 @@ impl<'t> Parser<'t> {
     fn do_bump(&mut self, kind: SyntaxKind, n_raw_tokens: u8) {
         self.pos += n_raw_tokens as usize;
         self.steps.set(0);
+        #[cfg(feature = "oq3_verif")]
+        {
+            self.events_since_bump = 0;
+            crate::verif::on_bump();
+        }
         self.push_event(Event::Token { kind, n_raw_tokens });
     }
 
     fn push_event(&mut self, event: Event) {
+        #[cfg(feature = "oq3_verif")]
+        {
+            self.events_since_bump += 1;
+            crate::verif::on_event(self.events_since_bump);
+        }
         self.events.push(event);
     }
 }
